@@ -30,7 +30,7 @@ if os.path.exists(mp):
         meta = json.load(open(mp))
     except Exception:
         meta = {"raw_meta": open(mp).read()}
-meta["confirmation"] = {"command": "tools/seedconfirm.sh %s %s %s %s" % (src, demo, target, rx),
+meta["confirmation"] = {"command": "%stools/seedconfirm.sh %s %s %s %s" % (("SEED_GOTEST_FLAGS=%s " % os.environ["SEED_GOTEST_FLAGS"]) if os.environ.get("SEED_GOTEST_FLAGS") else "", src, demo, target, rx),
                         "result": last[0] if last else conf[-300:], "confirmed": ok,
                         "means": "in a scratch worktree of /repo HEAD: demonstration passes on the pristine tree, fails with the patch; with the patch the tree builds and all 143 baseline tests still pass"}
 meta["checks_run"] = {"command": "tools/seedtest.sh <patch.diff> " + " ".join(checks) + " (patch applied to a scratch worktree, checks run with VERIF_REPO pointing at it, quick tier, seed 1)", "results": res}
